@@ -119,8 +119,54 @@ def mixed_case(ctx: Ctx, stream: str, i: int) -> None:
     check(ctx, stream, i, CompositionOperator(ops), 'mixed-dtype chain')
 
 
+def axes_case(ctx: Ctx, stream: str, i: int) -> None:
+    """ravel / reshape / move-axis operators over pytrees whose leaves differ in rank or shape, with the leaf the
+    operator leaves untouched first OR last in flatten order; the operator alone, under a scalar, transposed, in a chain
+    with its own transpose — every declared structure against what `mv` returns, before and after `reduce()`"""
+    from furax._base.axes import MoveAxisOperator, RavelOperator, ReshapeOperator
+    from furax._base.core import CompositionOperator
+    rng = ctx.rng(stream, i)
+    dt = jnp.float64 if (jax.config.jax_enable_x64 and rng.random() < 0.4) else jnp.float32
+    n, m = rng.choice([2, 3]), rng.choice([2, 4, 5])
+    flat, deep = gen.S(n * m, dtype=dt), gen.S(n, m, dtype=dt)
+    untouched_first = rng.random() < 0.5
+    which = rng.choice(['ravel', 'ravel-neg', 'reshape', 'moveaxis'])
+    if which in ('ravel', 'ravel-neg'):
+        # the 1-d leaf is already flat
+        leaves = [gen.S(n, dtype=dt), deep]
+        mk = (lambda s: RavelOperator(0, -1, in_structure=s)) if which == 'ravel' else (lambda s: RavelOperator(-1, -1, in_structure=s))
+    elif which == 'reshape':
+        # the target shape is the shape one leaf already has
+        leaves = [flat, deep]
+        mk = lambda s: ReshapeOperator((n * m,), in_structure=s)      # noqa: E731
+    else:
+        # swapping the two axes of a square leaf keeps its shape, of a rectangular one not
+        leaves = [gen.S(n, n, dtype=dt), gen.S(n, n + 1, dtype=dt)]
+        mk = lambda s: MoveAxisOperator(0, 1, in_structure=s)          # noqa: E731
+    if not untouched_first:
+        leaves = leaves[::-1]
+    form = rng.choice(['dict', 'list', 'tuple'])
+    s = {'a': leaves[0], 'b': leaves[1]} if form == 'dict' else (list(leaves) if form == 'list' else tuple(leaves))
+    st, op = safe(mk, s)
+    if st != 'ok':
+        ctx.fail(stream, i, f'axes-ctor-raises:{which}:{st}', str(op)[:150], {'which': which, 'structure': str(s)})
+        return
+    variants = [('alone', op), ('scaled', 2.0 * op), ('negated', -op)]
+    stt, t = safe(lambda: op.T)
+    if stt == 'ok':
+        variants += [('transpose', t), ('T-after', CompositionOperator([t, op])), ('after-T', CompositionOperator([op, t]))]
+    d = gen.mk_diagonal(rng, op.out_structure())
+    if d is not None:
+        variants.append(('under-diagonal', d @ op))
+    for label, e in variants:
+        check(ctx, stream, i, e, f'axes:{which}:{label}:untouched-{"first" if untouched_first else "last"}')
+
+
 def run(ctx: Ctx) -> None:
     q = ctx.tier == 'quick'
+    for i in range(48 if q else 600):
+        if ctx.want('axes', i):
+            axes_case(ctx, 'axes', i)
     for i in range(60 if q else 1200):
         if ctx.want('mixed', i):
             mixed_case(ctx, 'mixed', i)
